@@ -103,6 +103,11 @@ func (ex *Exec) doCall(th *Thread, fr *Frame, c *ssa.CallCommon, site *ssa.Call)
 		fr.pc++
 		return
 	}
+	if ex.lenient > 0 && callee.fn.Name() == "init" && callee.fn.Signature.Recv() == nil && callee.fn.Pkg != nil && callee.fn.Pkg != fr.fn.Pkg {
+		// package initializers of imports run lazily, when one of their own globals is touched
+		fr.pc++
+		return
+	}
 	ex.pushFrame(th, callee.fn, args, callee.env, site)
 }
 
@@ -371,6 +376,8 @@ var noopPkgs = []string{
 
 var noopFuncPrefixes = []string{
 	"(*github.com/temporalio/s2s-proxy/proxy.StreamTracker).",
+	"(*github.com/temporalio/s2s-proxy/proxy.proxyStreamReceiver).buildReceiverDebugSnapshot",
+	"(*github.com/temporalio/s2s-proxy/proxy.proxyStreamSender).buildSenderDebugSnapshot",
 	"github.com/temporalio/s2s-proxy/proxy.GetGlobalStreamTracker",
 	"runtime/debug.Stack",
 	"runtime/debug.PrintStack",
